@@ -54,6 +54,19 @@ type Params struct {
 	Bias       string  // "commit" (C01) or "loser" (C02)
 	Checkpoint bool
 	RowSizes   []int
+	File       bool // file-backed disk manager for the live run (needed for clean shutdown / reopen)
+	CleanShutdown bool // end the live run with SamehadaDB.Shutdown() (flush + graceful-shutdown record) instead of closing the files
+	NoUpdate   bool // never generate UPDATE (tables with a hash index: UpdateEntry is unimplemented there)
+	// OnQuiescent is called whenever no transaction is open right after a transaction ended. Returning false stops the history.
+	OnQuiescent func(q *Quiescent) bool
+}
+
+// Quiescent describes a point of the history at which no transaction is in progress.
+type Quiescent struct {
+	DB     *sqlx.DB
+	Model  map[string][]rm.Row // committed rows per table
+	Ended  []*Txn              // transactions that ended since the previous quiescent point
+	MaxID  int32               // all ids ever used are in 1..MaxID
 }
 
 // History is the result of running a generated workload under the recorder.
@@ -85,6 +98,8 @@ type runner struct {
 	open   []*openTxn
 	nextID int32
 	nTxn   int
+	ended  []*Txn
+	stop   bool
 }
 
 func payload(r *rand.Rand, sizes []int, max int, tag string) string {
@@ -104,7 +119,7 @@ func Run(r *rand.Rand, path string, p Params) (h *History, fatal string) {
 	h = &History{P: p, Stats: map[string]int64{}}
 	get := rec.Install()
 	defer rec.Uninstall()
-	db := sqlx.Open(path, p.MemKB, sqlx.Options{})
+	db := sqlx.Open(path, p.MemKB, sqlx.Options{File: p.File})
 	rc := get()
 	rec.Uninstall()
 	rn := &runner{r: r, db: db, rc: rc, p: p, h: h, commit: map[string]map[int32]rm.Row{}, owner: map[string]map[int32]int{}, nextID: 1}
@@ -146,10 +161,18 @@ func Run(r *rand.Rand, path string, p Params) (h *History, fatal string) {
 	h.Events = rc.Events
 	rc.On = false
 	func() {
-		defer func() { recover() }()
-		db.S.ShutdownForTescase()
+		defer func() {
+			if x := recover(); x != nil && p.CleanShutdown {
+				fatal = "clean shutdown panicked: " + fmt.Sprint(x)
+			}
+		}()
+		if p.CleanShutdown {
+			db.S.Shutdown()
+		} else {
+			db.S.ShutdownForTescase()
+		}
 	}()
-	return h, ""
+	return h, fatal
 }
 
 func (rn *runner) rows(table string) []rm.Row {
@@ -261,6 +284,7 @@ func (rn *runner) commitTxn(i int) {
 		rn.h.Stats["writing_commits"]++
 	}
 	rn.drop(i)
+	rn.quiescent(o.t)
 }
 
 func (rn *runner) abortTxn(i int, conflict bool) {
@@ -274,6 +298,7 @@ func (rn *runner) abortTxn(i int, conflict bool) {
 		rn.h.Stats["conflict_aborts"]++
 	}
 	rn.drop(i)
+	rn.quiescent(o.t)
 }
 
 // stmt executes sql in open txn i; expectAbort = the harness expects a lock conflict. Returns false if the history must stop.
@@ -312,6 +337,21 @@ func clip(s string) string {
 	return s
 }
 
+func (rn *runner) quiescent(t *Txn) {
+	rn.ended = append(rn.ended, t)
+	if len(rn.open) != 0 || rn.p.OnQuiescent == nil {
+		return
+	}
+	q := &Quiescent{DB: rn.db, Model: map[string][]rm.Row{}, Ended: rn.ended, MaxID: rn.nextID}
+	for _, td := range rn.p.Tables {
+		q.Model[td.Name] = rn.rows(td.Name)
+	}
+	rn.ended = nil
+	if !rn.p.OnQuiescent(q) {
+		rn.stop = true
+	}
+}
+
 func (rn *runner) table() string { return rn.p.Tables[rn.r.Intn(len(rn.p.Tables))].Name }
 
 func (rn *runner) write(o *openTxn, table, kind string, id int32, row rm.Row) {
@@ -346,7 +386,11 @@ func (rn *runner) dml(i int) bool {
 	table := rn.table()
 	tag := fmt.Sprintf("t%ds%d.", o.t.N, len(o.t.Stmts))
 	lit := func(c rm.Cell) string { s, _ := c.SQLLit(); return s }
-	switch c := r.Intn(12); {
+	c := r.Intn(12)
+	if rn.p.NoUpdate && c >= 4 && c < 9 {
+		c = []int{0, 9}[r.Intn(2)]
+	}
+	switch {
 	case c < 4: // insert (1-3 rows)
 		n := 1
 		if r.Intn(4) == 0 {
@@ -429,7 +473,7 @@ func (rn *runner) dml(i int) bool {
 			for _, idi := range oids {
 				id := int32(idi)
 				sql := fmt.Sprintf("UPDATE %s SET k = 7 WHERE id = %d;", table, id)
-				if r.Intn(2) == 0 {
+				if r.Intn(2) == 0 || rn.p.NoUpdate {
 					sql = fmt.Sprintf("DELETE FROM %s WHERE id = %d;", table, id)
 				}
 				rn.h.Stats["stmt_conflict"]++
@@ -451,7 +495,7 @@ func (rn *runner) auto() bool {
 	var op Op
 	if id, ok := rn.pickID(nil, table, false); ok && r.Intn(2) == 0 {
 		old := rn.commit[table][id]
-		if r.Intn(3) == 0 {
+		if r.Intn(3) == 0 || rn.p.NoUpdate {
 			sql = fmt.Sprintf("DELETE FROM %s WHERE id = %d;", table, id)
 			op = Op{Table: table, Kind: "del", ID: id}
 		} else {
@@ -486,6 +530,7 @@ func (rn *runner) auto() bool {
 		t.AbortRet = rn.rc.Len()
 		rn.rc.Mark("ABORT-RET", t.N)
 		rn.h.Stats["unexpected_aborts"]++
+		rn.quiescent(t)
 		return true
 	}
 	t.CommitRet = rn.rc.Len()
@@ -499,12 +544,13 @@ func (rn *runner) auto() bool {
 	}
 	rn.h.Stats["commits"]++
 	rn.h.Stats["writing_commits"]++
+	rn.quiescent(t)
 	return true
 }
 
 func (rn *runner) run() {
 	r := rn.r
-	for step := 0; step < rn.p.Steps; step++ {
+	for step := 0; step < rn.p.Steps && !rn.stop; step++ {
 		c := r.Intn(100)
 		switch {
 		case len(rn.open) == 0 && c < 15:
